@@ -284,6 +284,54 @@ func booksConsistent(s nextroute.Solution) bool {
 	return check(s.PlannedPlanUnits(), true) && check(s.FixedPlanUnits(), true) && check(s.UnPlannedPlanUnits(), false)
 }
 
+// unplannedScoreFresh: the unplanned-penalty term equals the penalties of the units listed as unplanned
+// (a stale term — finding E17 — makes every later before/after comparison meaningless: taint).
+func unplannedScoreFresh(bt *built, s nextroute.Solution) bool {
+	var cost func(u int) float64
+	cost = func(u int) float64 {
+		du := bt.d.units[u]
+		if du.Kind == "stops" {
+			t := 0.0
+			for _, st := range du.Stops {
+				cs, isAlt := bt.d.stopOf(st)
+				p := 1000000.0
+				if isAlt {
+					p = 2000000.0
+				}
+				if cs.Penalty != nil {
+					p = float64(*cs.Penalty)
+				}
+				t += p
+			}
+			return t
+		}
+		t := 0.0
+		for _, m := range du.Members {
+			t += cost(m)
+		}
+		if du.Kind == "oneof" && len(du.Members) > 0 {
+			t /= float64(len(du.Members))
+		}
+		return t
+	}
+	for _, term := range s.Model().Objective().Terms() {
+		if termName(term.Objective()) != "unplanned" {
+			continue
+		}
+		want := 0.0
+		for _, u := range s.UnPlannedPlanUnits().SolutionPlanUnits() {
+			ci, ok := bt.b.unitIdx[u.ModelPlanUnit().Index()]
+			if !ok {
+				return true
+			}
+			want += cost(ci)
+		}
+		got := s.ObjectiveValue(term.Objective()) / term.Factor()
+		return math.Abs(got-want) <= 1e-6*(1+math.Abs(want))
+	}
+	return true
+}
+
 func unitsOf(s nextroute.Solution, pred func(nextroute.SolutionPlanUnit) bool) []nextroute.SolutionPlanUnit {
 	var out []nextroute.SolutionPlanUnit
 	add := func(c nextroute.ImmutableSolutionPlanUnitCollection) {
@@ -334,6 +382,9 @@ func unitRole(u nextroute.SolutionPlanUnit) string {
 }
 
 var waitBias bool
+
+// histRec: the recording observer of the history being run (used by the oracle enumerations)
+var histRec *recorder
 
 func runHist(o *Out, thorough bool, withUC bool) {
 	o.Meta.Rule = "a case = generated instance × random operation history (best move / explicit move / un-plan of a " +
@@ -409,6 +460,10 @@ func runHistCase(o *Out, ci int, hc *histCase, nops int, distinct map[string]boo
 		}
 		o.Count("uc:" + uc.Level + ":" + uc.Kind)
 	}
+	rec := &recorder{}
+	histRec = rec
+	bt.model.AddSolutionObserver(rec)
+	bt.model.AddSolutionUnPlanObserver(rec)
 	var sol nextroute.Solution
 	func() {
 		defer func() {
@@ -448,6 +503,106 @@ func runHistCase(o *Out, ci int, hc *histCase, nops int, distinct map[string]boo
 		}
 	}
 	observe(sol, "new-solution")
+	// NR.Coll correspondence: the unit forest, then after every operation the operation with its
+	// feasibility bits and the resulting collections
+	cu := func(modelUnitIndex int) int {
+		if ci, ok := b.unitIdx[modelUnitIndex]; ok {
+			return ci
+		}
+		return 9999
+	}
+	collState := func(s nextroute.Solution) string {
+		var on []int
+		for _, u := range s.Model().PlanStopsUnits() {
+			if s.SolutionPlanStopsUnit(u).IsPlanned() {
+				on = append(on, cu(u.Index()))
+			}
+		}
+		sort.Ints(on)
+		coll := func(c nextroute.ImmutableSolutionPlanUnitCollection) string {
+			var ids []int
+			for _, u := range c.SolutionPlanUnits() {
+				ids = append(ids, cu(u.ModelPlanUnit().Index()))
+			}
+			sort.Ints(ids)
+			return csvI(ids)
+		}
+		return fmt.Sprintf("R=%s P=%s U=%s F=%s", csvI(on), coll(s.PlannedPlanUnits()), coll(s.UnPlannedPlanUnits()), coll(s.FixedPlanUnits()))
+	}
+	{
+		var kinds, parents, fixed []string
+		// members in the order the code iterates them (ModelPlanUnitsUnit.PlanUnits())
+		codeMembers := map[int][]int{}
+		for _, mu := range sol.Model().PlanUnits() {
+			if uu, ok := mu.(nextroute.ModelPlanUnitsUnit); ok {
+				var ms []int
+				for _, m := range uu.PlanUnits() {
+					ms = append(ms, cu(m.Index()))
+				}
+				codeMembers[cu(mu.Index())] = ms
+			}
+		}
+		for i, u := range bt.d.units {
+			members := u.Members
+			if cm, ok := codeMembers[i]; ok && len(cm) == len(members) {
+				members = cm
+			}
+			switch u.Kind {
+			case "stops":
+				kinds = append(kinds, "s")
+			case "oneof":
+				kinds = append(kinds, "o"+strings.ReplaceAll(csvI(members), ",", "."))
+			default:
+				kinds = append(kinds, "a"+strings.ReplaceAll(csvI(members), ",", "."))
+			}
+			if bt.d.parent[i] >= 0 {
+				parents = append(parents, fmt.Sprint(bt.d.parent[i]))
+			} else {
+				parents = append(parents, "-")
+			}
+			fx := "0"
+			for _, su := range sol.Model().PlanStopsUnits() {
+				if cu(su.Index()) == i && sol.SolutionPlanStopsUnit(su).IsFixed() {
+					fx = "1"
+				}
+			}
+			fixed = append(fixed, fx)
+		}
+		o.Op("coll init "+strings.Join(kinds, ",")+" "+strings.Join(parents, ",")+" "+strings.Join(fixed, ","), "coll init")
+		o.Op("coll set "+collState(sol), "coll set")
+	}
+	// collOp: emit one modelled operation (nil: the operation is not modelled — resynchronise instead)
+	collOp := func(line string) {
+		if line == "" {
+			o.Op("coll set "+collState(sol), "coll set")
+			return
+		}
+		o.Op("coll "+line, "coll "+collState(sol))
+		o.Count("coll-ops")
+	}
+	bits := func(kind string) string {
+		var out []string
+		for _, e := range rec.events {
+			if e.Kind == kind {
+				out = append(out, fmt.Sprintf("%d:%s", cu(e.Unit), b01(e.OK)))
+			}
+		}
+		if len(out) == 0 {
+			return "-"
+		}
+		return strings.Join(out, ",")
+	}
+	// execLine: the Coll operation for an executed move of `u` (after the call; events recorded)
+	execLine := func(mv nextroute.SolutionMove, ok bool) string {
+		pu := mv.PlanUnit()
+		if pu == nil {
+			return ""
+		}
+		if _, nested := pu.(nextroute.SolutionPlanUnitsUnit); nested {
+			return fmt.Sprintf("execUnits %d %s %s", cu(pu.ModelPlanUnit().Index()), bits("plan"), bits("unplan"))
+		}
+		return fmt.Sprintf("execStops %d %s", cu(pu.ModelPlanUnit().Index()), b01(ok))
+	}
 	violate := func(prop, clause, sigExtra, detail string) {
 		if tainted && prop != "C16" {
 			return
@@ -479,6 +634,7 @@ func runHistCase(o *Out, ci int, hc *histCase, nops int, distinct map[string]boo
 	fillLeft := 0
 	for step := 0; step < nops; step++ {
 		var opDesc string
+		collLine := ""
 		before := snapOf(b, sol)
 		kind := rng.Intn(100)
 		if pending != nil {
@@ -514,6 +670,7 @@ func runHistCase(o *Out, ci int, hc *histCase, nops int, distinct map[string]boo
 			opDesc = "stale-execute(" + role + ")"
 			var ok bool
 			var e error
+			rec.reset()
 			if doPanic(opDesc, func() { ok, e = mv.Execute(ctx) }) {
 				return
 			}
@@ -521,6 +678,7 @@ func runHistCase(o *Out, ci int, hc *histCase, nops int, distinct map[string]boo
 				violate("C16", "engine-error", "stale-Execute", e.Error())
 				return
 			}
+			collLine = execLine(mv, ok)
 			o.Count("stale-execute:" + fmt.Sprintf("ok=%v", ok))
 			if !ok {
 				rejectedKinds["stale-execute-"+role] = true
@@ -552,10 +710,13 @@ func runHistCase(o *Out, ci int, hc *histCase, nops int, distinct map[string]boo
 				return
 			}
 			if !tainted && !snapSame(snapOf(b, sol), before) {
-				violate("C18", "best-move-changed-solution", role, "BestMove query changed the observable solution")
+				violate("C18", "best-move-changed-solution", role+"|"+changedParts(before, snapOf(b, sol)), "BestMove query changed the observable solution: "+diffSnap(before, snapOf(b, sol)))
 			}
 			if su, ok := u.(nextroute.SolutionPlanStopsUnit); ok && len(su.SolutionStops()) <= 3 {
 				bestMoveOracle(o, hc, sol, su, mv, role)
+			}
+			if su, ok := u.(nextroute.SolutionPlanStopsUnit); ok && len(su.SolutionStops()) >= 2 && len(su.SolutionStops()) <= 4 && !tainted {
+				genCorrespondence(o, rng, sol, su)
 			}
 			exe := mv.IsExecutable()
 			if exe && pending == nil && staleCase && rng.Intn(3) == 0 {
@@ -571,12 +732,18 @@ func runHistCase(o *Out, ci int, hc *histCase, nops int, distinct map[string]boo
 			}
 			var ok bool
 			var e error
+			rec.reset()
 			if doPanic(opDesc+".Execute", func() { ok, e = mv.Execute(ctx) }) {
 				return
 			}
 			if e != nil {
 				violate("C16", "engine-error", "Execute", e.Error())
 				return
+			}
+			if exe {
+				collLine = execLine(mv, ok)
+			} else {
+				collLine = "nop"
 			}
 			o.Count("bestmove:" + fmt.Sprintf("exe=%v,ok=%v", exe, ok))
 			if exe && !ok {
@@ -610,19 +777,31 @@ func runHistCase(o *Out, ci int, hc *histCase, nops int, distinct map[string]boo
 			opDesc = "newmove(" + role + ")"
 			vehicles := sol.Vehicles()
 			v := vehicles[rng.Intn(len(vehicles))]
+			rec.reset()
+			rec.keepEsts = true
 			mv := randomPlacement(rng, su, v)
+			rec.keepEsts = false
 			if mv == nil {
 				continue
+			}
+			if !tainted {
+				estCorrespondence(o, rec, mv, v)
 			}
 			exe := mv.IsExecutable()
 			var ok bool
 			var e error
+			rec.reset()
 			if doPanic(opDesc+".Execute", func() { ok, e = mv.Execute(ctx) }) {
 				return
 			}
 			if e != nil {
 				violate("C16", "engine-error", "Execute", e.Error())
 				return
+			}
+			if exe {
+				collLine = execLine(mv, ok)
+			} else {
+				collLine = "nop"
 			}
 			o.Count("newmove:" + fmt.Sprintf("exe=%v,ok=%v", exe, ok))
 			if exe && !ok {
@@ -659,8 +838,14 @@ func runHistCase(o *Out, ci int, hc *histCase, nops int, distinct map[string]boo
 			opDesc = "unplan(" + role + ")"
 			var ok bool
 			var e error
+			rec.reset()
 			if doPanic(opDesc, func() { ok, e = u.UnPlan() }) {
 				return
+			}
+			if _, nested := u.(nextroute.SolutionPlanUnitsUnit); nested {
+				collLine = fmt.Sprintf("unplanUnits %d %s", cu(u.ModelPlanUnit().Index()), bits("unplan"))
+			} else {
+				collLine = fmt.Sprintf("unplanStops %d %s", cu(u.ModelPlanUnit().Index()), b01(ok))
 			}
 			if e != nil {
 				violate("C16", "engine-error", "UnPlan", e.Error())
@@ -691,8 +876,23 @@ func runHistCase(o *Out, ci int, hc *histCase, nops int, distinct map[string]boo
 			n := v.NumberOfStops()
 			var ok bool
 			var e error
+			var vus []int
+			seenU := map[int]bool{}
+			for _, st := range v.SolutionStops() {
+				if !st.IsFirst() && !st.IsLast() && !st.IsFixed() {
+					id := cu(st.PlanStopsUnit().ModelPlanUnit().Index())
+					if !seenU[id] {
+						seenU[id] = true
+						vus = append(vus, id)
+					}
+				}
+			}
 			if doPanic(opDesc, func() { ok, e = v.Unplan() }) {
 				return
+			}
+			collLine = fmt.Sprintf("vehicleUnplan %s %s", csvI(vus), b01(ok))
+			if len(vus) == 0 {
+				collLine = "nop"
 			}
 			if e != nil {
 				violate("C16", "engine-error", "Vehicle.Unplan", e.Error())
@@ -731,6 +931,41 @@ func runHistCase(o *Out, ci int, hc *histCase, nops int, distinct map[string]boo
 				violate("C11", "copy-changed-original", "-", "Copy() changed the original")
 			}
 			o.Count("copy")
+			// twin run: the same operations with the same random streams on the original and on the copy must
+			// leave both in the same observable state (a copy that lost internal state behaves differently later)
+			if !tainted {
+				seedOps, seedRnd := rng.Int63(), rng.Int63()
+				sol.SetRandom(rand.New(rand.NewSource(seedRnd)))
+				cp.SetRandom(rand.New(rand.NewSource(seedRnd)))
+				pa, pb := false, false
+				func() {
+					defer func() {
+						if r := recover(); r != nil {
+							pa = true
+						}
+					}()
+					randomOps(rand.New(rand.NewSource(seedOps)), sol, 4)
+				}()
+				func() {
+					defer func() {
+						if r := recover(); r != nil {
+							pb = true
+						}
+					}()
+					randomOps(rand.New(rand.NewSource(seedOps)), cp, 4)
+				}()
+				sa, sb := snapOf(b, sol), snapOf(b, cp)
+				if pa != pb || !snapSame(sa, sb) {
+					violate("C11", "copy-behaves-differently-from-original", changedParts(sa, sb),
+						fmt.Sprintf("same 4 operations, same random streams: original panicked=%v copy panicked=%v; %s", pa, pb, diffSnap(sa, sb)))
+				}
+				if pa || pb {
+					return
+				}
+				o.Count("copy-twin-runs")
+				collLine = ""
+				before = sa // both sides moved on together
+			}
 			if rng.Intn(2) == 0 {
 				shadow, shadowSnap = sol, before
 				sol = cp
@@ -762,7 +997,11 @@ func runHistCase(o *Out, ci int, hc *histCase, nops int, distinct map[string]boo
 		}
 		hc.Ops = append(hc.Ops, opDesc)
 		observe(sol, opDesc)
-		if !tainted && !booksConsistent(sol) {
+		if collLine == "nop" {
+			collLine = "" // nothing modelled happened (the search of BestMove itself is not part of NR.Coll): resynchronise
+		}
+		collOp(collLine)
+		if !tainted && (!booksConsistent(sol) || !unplannedScoreFresh(bt, sol)) {
 			tainted = true
 			o.Count("tainted-by:" + opDesc)
 		}
@@ -946,9 +1185,19 @@ func bestMoveOracle(o *Out, hc *histCase, sol nextroute.Solution, su nextroute.S
 				if splitsDirectPair(target, g) || separatesOwnDirectPair(order, g) {
 					continue // "keeping other units' direct pairs adjacent" (and the unit's own)
 				}
+				if histRec != nil {
+					histRec.reset()
+					histRec.keepEsts = true
+				}
 				m, err := moveAt(su, order, target, g)
+				if histRec != nil {
+					histRec.keepEsts = false
+				}
 				if err != nil || m == nil {
 					continue
+				}
+				if histRec != nil && count%3 == 0 {
+					estCorrespondence(o, histRec, m, v)
 				}
 				count++
 				if m.IsExecutable() {
@@ -1018,6 +1267,145 @@ func moveStillValid(mv nextroute.SolutionMove) bool {
 		return len(sps) > 0
 	}
 	return false
+}
+
+// genCorrespondence: the position generator of the real code (public test entry point) on one vehicle and
+// one allowed order of the unit, as gap combinations, next to the inputs of NR.Gen.generate.
+func genCorrespondence(o *Out, rng *rand.Rand, sol nextroute.Solution, su nextroute.SolutionPlanStopsUnit) {
+	orders := allowedOrders(su)
+	if len(orders) == 0 {
+		return
+	}
+	order := orders[rng.Intn(len(orders))]
+	vs := sol.Vehicles()
+	v := vs[rng.Intn(len(vs))]
+	target := v.SolutionStops()
+	m := len(target) - 1
+	var combos []string
+	nextroute.SolutionMoveStopsGeneratorTest(v, su, func(mv nextroute.SolutionMoveStops) {
+		sps := mv.StopPositions()
+		gaps := make([]int, len(sps))
+		for i := len(sps) - 1; i >= 0; i-- {
+			if sps[i].Next().IsPlanned() {
+				gaps[i] = sps[i].Next().Position()
+			} else if i+1 < len(sps) {
+				gaps[i] = gaps[i+1]
+			}
+		}
+		ss := make([]string, len(gaps))
+		for i, g := range gaps {
+			ss[i] = fmt.Sprint(g)
+		}
+		combos = append(combos, strings.Join(ss, "."))
+	}, nextroute.SolutionStops(order), nextroute.NewPreAllocatedMoveContainer(su), func() bool { return false })
+	var bad, same []int
+	for g := 2; g <= m; g++ {
+		a, b := target[g-1].ModelStop(), target[g].ModelStop()
+		if a.HasPlanStopsUnit() && a.PlanStopsUnit().DirectedAcyclicGraph().HasDirectArc(a, b) {
+			bad = append(bad, g)
+		}
+	}
+	for j := 1; j < len(order); j++ {
+		a, b := order[j-1].ModelStop(), order[j].ModelStop()
+		if a.PlanStopsUnit().DirectedAcyclicGraph().HasDirectArc(a, b) {
+			same = append(same, j)
+		}
+	}
+	ans := "-"
+	if len(combos) > 0 {
+		ans = strings.Join(combos, ";")
+	}
+	o.Op(fmt.Sprintf("gen %d %d %s %s", len(order), m, csvI(bad), csvI(same)), "gen "+ans)
+	o.Count("gen-correspondence")
+	if len(bad)+len(same) > 0 {
+		o.Count("gen-correspondence-with-direct-pairs")
+	}
+}
+
+// estCorrespondence: for every Maximum constraint (capacity per resource, distance limit) whose estimate was
+// evaluated for this move, the numbers the estimate reads — derived here from the public API — next to the
+// verdict it gave; NR.Estimate recomputes the verdict.
+func estCorrespondence(o *Out, rec *recorder, mv nextroute.SolutionMoveStops, v nextroute.SolutionVehicle) {
+	sps := mv.StopPositions()
+	if len(sps) == 0 {
+		return
+	}
+	target := v.SolutionStops()
+	gaps := make([]int, len(sps))
+	for i := len(sps) - 1; i >= 0; i-- {
+		if sps[i].Next().IsPlanned() {
+			gaps[i] = sps[i].Next().Position()
+		} else if i+1 < len(sps) {
+			gaps[i] = gaps[i+1]
+		}
+	}
+	// hypothetical route
+	var hyp []nextroute.SolutionStop
+	k := 0
+	for pos, st := range target {
+		for k < len(sps) && gaps[k] == pos {
+			hyp = append(hyp, sps[k].Stop())
+			k++
+		}
+		hyp = append(hyp, st)
+	}
+	firstIns, nextIdx := -1, -1
+	for i, st := range hyp {
+		if !st.IsPlanned() {
+			if firstIns < 0 {
+				firstIns = i
+			}
+			nextIdx = i + 1
+		}
+	}
+	if firstIns < 1 || nextIdx >= len(hyp) {
+		return
+	}
+	vt := v.ModelVehicle().VehicleType()
+	for _, ev := range rec.ests {
+		mx, ok := ev.Constraint.(nextroute.Maximum)
+		if !ok || ev.Move != nextroute.SolutionMove(mv) {
+			continue
+		}
+		e := mx.Expression()
+		maximum := mx.Maximum().Value(vt, nil, nil)
+		val := func(i int) float64 { return e.Value(vt, hyp[i-1].ModelStop(), hyp[i].ModelStop()) }
+		var win, tail []string
+		delta, noEffect := 0.0, true
+		for i := firstIns; i <= nextIdx; i++ {
+			win = append(win, rat(val(i)))
+		}
+		for i := nextIdx + 1; i < len(hyp); i++ {
+			tail = append(tail, rat(val(i)))
+		}
+		for _, sp := range sps {
+			x := 1.0 // not a per-stop expression: the unit always has an effect
+			if _, isStop := e.(nextroute.StopExpression); isStop {
+				x = e.Value(nil, nil, sp.Stop().ModelStop())
+			}
+			delta += x
+			if x != 0 {
+				noEffect = false
+			}
+		}
+		_, isStopExpr := e.(nextroute.StopExpression)
+		regime := "general"
+		switch {
+		case isStopExpr && !e.HasNegativeValues() && noEffect:
+			regime = "noeffect"
+		case e.HasNegativeValues() && !e.HasPositiveValues():
+			regime = "allnegative"
+		case isStopExpr && !e.HasNegativeValues():
+			regime = "const"
+		}
+		base := hyp[firstIns-1].CumulativeValue(e)
+		oldCumNext := hyp[nextIdx].CumulativeValue(e)
+		oldLast := v.Last().CumulativeValue(e)
+		line := fmt.Sprintf("est max %s %s %s %s %s %s %s %s %s", regime, rat(maximum), rat(base), csvS(win), csvS(tail),
+			rat(oldCumNext), rat(oldLast), b01(e.HasNegativeValues()), rat(delta))
+		o.Op(line, "est "+b01(ev.Violated))
+		o.Count("est-correspondence:" + regime)
+	}
 }
 
 // splitsDirectPair: does some chosen gap lie between two target stops tied by a direct precedence?
